@@ -3,7 +3,7 @@ import XmpModel.Tick
 import XmpModel.Virt
 /-! Native driver for the C16 correspondence (line protocol of harness/c16_frames.c, `D ` prefix
 already stripped by tools/checks/c16.py).  One answer line per `wf`, `start`, `von`, `frame`,
-`ctl`, `st26`, `tick`, `vop` line; module description lines are silent. -/
+`ctl`, `st26`, `tick`, `tfac`, `vop`, `vopf` line; module description lines are silent. -/
 open Xmp Xmp.Seq
 
 def ints (ws : List String) : List Int := ws.map fun w => w.toInt?.getD 0
@@ -53,6 +53,12 @@ def vstateStr (s : Virt.VState) : String :=
   let cs := s.chans.flatMap fun c => [toString c.map, toString c.count]
   "v " ++ toString s.virtUsed ++ " | " ++ " ".intercalate vs ++ (if vs.isEmpty then "| " else " | ") ++ " ".intercalate cs
 
+/-- all seven modelled fields of every voice (expected line of the field-only operations) -/
+def vstateStrFull (s : Virt.VState) : String :=
+  let vs := s.voices.flatMap fun v => [v.chn, v.root, v.act, v.vol, v.ins, v.smp, v.key].map toString
+  let cs := s.chans.flatMap fun c => [toString c.map, toString c.count]
+  "vf " ++ toString s.virtUsed ++ " | " ++ " ".intercalate vs ++ (if vs.isEmpty then "| " else " | ") ++ " ".intercalate cs
+
 def vopOf (name : String) (a : List Int) : Option Virt.Op :=
   let g := fun (i : Nat) => a.getD i 0
   match name with
@@ -62,6 +68,10 @@ def vopOf (name : String) (a : List Int) : Option Virt.Op :=
   | "setvol" => some (.setVol (g 0) (g 1) (g 2 != 0))
   | "setpatch" => some (.setPatch (g 0) (g 1) (g 2) (g 3) (g 4) (g 5) (g 6))
   | "pastnotecut" => some (.pastNoteCut (g 0))
+  | "pastnoteother" => some (.pastNoteOther (g 0) (g 1))
+  | "setnna" => some (.setNna (g 0) (g 1) (g 2 != 0))
+  | "setsmp" => some (.setSmp (g 0) (g 1))
+  | "queueins" => some (.queueIns (g 0) (g 1))
   | _ => none
 
 /-- mantissa·2^exp as a fraction -/
@@ -91,7 +101,7 @@ partial def loop (h : IO.FS.Stream) (m : SeqMod) : IO Unit := do
   | "ost26" :: rest => loop h { m with oSt26 := ints rest }
   | "otime" :: rest => loop h { m with oTime := ints rest }
   | ["wf"] =>
-    IO.println s!"w {if wfB m then 1 else 0}"
+    IO.println s!"w {if wfB m then 1 else 0} {if ordWfB m then 1 else 0}"
     loop h m
   | ["start", sp] =>
     match start m (sp.toInt?.getD 0) with
@@ -134,16 +144,26 @@ partial def loop (h : IO.FS.Stream) (m : SeqMod) : IO Unit := do
     let hi := Tick.getTicksize (i freq) (tfN * (e + 1)) (tfD * e) rrN rrD (i bpm)
     IO.println s!"q {t} {pt} {bs} {lo} {hi}"
     loop h m
-  | "vop" :: name :: rest =>
-    match splitBar rest with
-    | [args, hdr, vs, cs] =>
-      let hv := ints hdr
-      let s : Virt.VState := { numTracks := hv.getD 0 0, virtChannels := hv.getD 1 0, maxvoc := hv.getD 2 0,
-                               virtUsed := hv.getD 3 0, voices := voicesOf (ints vs), chans := chansOf (ints cs) }
-      match vopOf name (ints args) with
-      | some op => IO.println (vstateStr (Virt.step s op))
-      | none => IO.println "v ?"
-    | _ => IO.println "v parse-error"
+  | ["tfac", freq, vM, vE, rrM, rrE, bpm] =>
+    let i := fun (s : String) => s.toInt?.getD 0
+    let (vN, vD) := fracOf (i vM) (i vE)
+    let (rrN, rrD) := fracOf (i rrM) (i rrE)
+    let acc := fun (n d : Int) => if (Tick.setTempoFactor (i freq) rrN rrD (i bpm) n d).isSome then 1 else 0
+    -- bracket for the floating-point rounding of the C: the same rule for val·(1 ∓ 2⁻⁴⁰)
+    let e : Int := 2 ^ 40
+    IO.println s!"f {acc vN vD} {acc (vN * (e - 1)) (vD * e)} {acc (vN * (e + 1)) (vD * e)}"
+    loop h m
+  | kind :: name :: rest =>
+    if kind == "vop" || kind == "vopf" then
+      match splitBar rest with
+      | [args, hdr, vs, cs] =>
+        let hv := ints hdr
+        let s : Virt.VState := { numTracks := hv.getD 0 0, virtChannels := hv.getD 1 0, maxvoc := hv.getD 2 0,
+                                 virtUsed := hv.getD 3 0, voices := voicesOf (ints vs), chans := chansOf (ints cs) }
+        match vopOf name (ints args) with
+        | some op => IO.println ((if kind == "vopf" then vstateStrFull else vstateStr) (Virt.step s op))
+        | none => IO.println "v ?"
+      | _ => IO.println "v parse-error"
     loop h m
   | _ => loop h m
 
